@@ -12,9 +12,9 @@
    OptStringsOnly and under tyid_wf in OptAnyValue; the *_refuted theorems are
    the witnesses outside tyid_wf.                                          *)
 From Coq Require Import ZArith List String Permutation.
-From V Require Spec.TimestampSpec.
+From V Require Spec.TimestampSpec Model.Timestamp.
 From V Require Import Base.UString Model.Filters Spec.FilterSpec
-  Proofs.FiltersBasics Proofs.FiltersOpt Proofs.FiltersFs Proofs.FiltersLaws Proofs.FiltersInv Proofs.FiltersAll Proofs.FiltersCongr Proofs.FiltersTs.
+  Proofs.FiltersBasics Proofs.FiltersOpt Proofs.FiltersFs Proofs.FiltersLaws Proofs.FiltersInv Proofs.FiltersAll Proofs.FiltersCongr Proofs.FiltersTs Proofs.FiltersTs2.
 Import ListNotations.
 
 (* ---- the optimiser never changes the result (DESIGN Appendix A.2) ---- *)
@@ -272,6 +272,21 @@ Theorem timestamp_strings_read_strictly : forall s t, parse_ts s = Some t ->
                   TimestampSpec.denotes (secs, ds) (t + unix_epoch_us)%Z /\ (List.length ds <= 6)%nat.
 Proof. exact parse_ts_strict. Qed.
 Print Assumptions timestamp_strings_read_strictly.
+
+(* ... and is read exactly as property C15's model of the library code reads it
+   (Model/Timestamp.v parse_strptime: datetime.strptime with the two formats of parse_into_datetime) *)
+Theorem timestamp_strings_read_as_the_library_does : forall s t,
+  parse_ts s = Some t -> Timestamp.parse_strptime s = Some (t + unix_epoch_us)%Z.
+Proof. exact parse_ts_is_strptime. Qed.
+Print Assumptions timestamp_strings_read_as_the_library_does.
+
+(* conversely every canonical text with a year >= 1 and at most six fraction digits is accepted *)
+Theorem canonical_timestamp_strings_accepted : forall s secs ds y r,
+  TimestampSpec.spec_read s = Some (secs, ds) -> (List.length ds <= 6)%nat ->
+  TimestampSpec.read_num 4 s 0 = Some (y, r) -> (1 <= y)%Z ->
+  exists t, parse_ts s = Some t.
+Proof. exact canonical_strings_accepted. Qed.
+Print Assumptions canonical_timestamp_strings_accepted.
 
 Theorem ts_on_dicts_repaired : forall f xs t s t',
   fval f = VStr s -> parse_ts xs = Some t -> parse_ts s = Some t' -> is_cmp_op (fop_ f) = true ->
